@@ -148,7 +148,10 @@ def plan_fault(kind, k, rec, rd, enc, cfg, offsets, blocked):
     if kind == "cut_in_length":
         return [], [{"kind": "truncate", "at": to_file(o + 2), "cls": kind}]
     if kind == "oversize_length":
-        return [{"record": k, "faults": [], "length_override": 6001 + (k % 3) * 100000}], []
+        # values above the maximum, including ones that look like something else: block filler (40404040),
+        # blanks, the top bit, all ones
+        big = (6001, 0x40404040, 106001, 0x20202020, 0xFFFFFFFF, 0x80000000, 65536)[(k + len(rec)) % 7]
+        return [{"record": k, "faults": [], "length_override": big}], []
     raise ValueError(kind)
 
 
